@@ -657,6 +657,16 @@ class State:
                     return 'FAIL birth index of %r not copied' % (s,)
         return 'ok'
 
+    def o_samecontent_sub(self, ha, hb):
+        """every simplex of a is in b with the same order, faces and attribute values (copy into a target)"""
+        a, b = self.C(ha), self.C(hb)
+        for s in B.simplices(a):
+            if s not in B.simplices(b):
+                return 'FAIL %r was not copied into the target' % (s,)
+            if B.orderOf(a, s) != B.orderOf(b, s) or B.faces(a, s) != B.faces(b, s) or B.getAttributes(a, s) != B.getAttributes(b, s):
+                return 'FAIL %r differs between source and target' % (s,)
+        return 'ok'
+
     def o_noshare(self, *hs):
         seen = {}
         for h in hs:
@@ -969,6 +979,10 @@ class State:
         return 'ok'
 
     # ---- small helpers used by several suites -------------------------------------------------------------
+    def o_lastok(self, what='the call'):
+        """the previous call must have succeeded (it is valid by construction of the script)"""
+        return 'ok' if self.last.startswith('ok') else 'FAIL %s failed on a valid input: %s' % (what.replace('_', ' '), self.last)
+
     def o_rejected(self):
         """the previous request must have raised KeyError or ValueError"""
         return 'ok' if self.last == 'rej' else 'FAIL the invalid request was not rejected with KeyError/ValueError: %s' % self.last
